@@ -120,6 +120,13 @@ def replay(d):
                 return True, 'region %d: published IAPWS-IF97 verification values missed by relative %g (defining relation %s)' % (region, w, d['tie'])
             return False, 'identity holds (relative %g) and published values reproduced (%g)' % (rel, w)
         return False, 'identity holds at (%r, %r): relative residual %g' % (a1, a2, rel)
+    if kind == 'region-eq':
+        t, p = float(num(d['t'])), float(num(d['p']))
+        r = I.region(t, p)
+        if r not in (1, 2): return False, 'region(%r, %r) = %r' % (t, p, r)
+        fn = I.cowat if r == 1 else I.supst
+        out = fn(t, p)
+        return (out is None, 'region(%r, %r) = %d and %s(t, p) = %r' % (t, p, r, fn.__name__, out))
     if kind == 'region':
         t, p = float(num(d['t'])), float(num(d['p']))
         try:
